@@ -203,7 +203,8 @@ Definition flush_obj (ob : obj) : obj :=
   if in_del ob then
     (* _remove_newly_deleted: identity_map.safe_discard (+ _manage_removed_state), _deleted.pop, _deleted = True *)
     let ob1 := if in_map ob then set_in_map false (if modified ob then set_in_mod false ob else ob) else ob in
-    set_delflag true (set_in_del false ob1)
+    (* the DELETE's primary-key lookup refreshes an expired object: val is in state.dict again *)
+    set_in_val (in_val ob || expired ob) (set_delflag true (set_in_del false ob1))
   else if in_new ob || (in_mod ob && in_map ob) then
     (* _register_persistent: key, identity_map.replace (+ _manage_incoming_state), _commit_all_states, _new.pop *)
     (* an expired object is refreshed by the UPDATE's primary-key lookup: val is in state.dict again *)
